@@ -57,7 +57,7 @@ def check_copies(ctx, db):
         scope = loop if loop is not None and any(x is var for x in loop.child('body').walk()) else f.body
         if loop is not None and not any(x is var for x in loop.child('body').walk()):
             # declared before the loop (copy_from): element stores are in the following loop
-            scope = next((l for l in f.walk() if l.k == 'ForStmt' and l.id > var.id), f.body)
+            scope = next((l for l in f.walk() if l.k == 'ForStmt' and l.pos > var.pos), f.body)
         n += copyrule.check_copy(ctx, db, 'R-COPY', '%s[%s]' % (qn, rect.split('::')[-1]), var.loc(), rect, scope.child('body') if scope.k == 'ForStmt' else scope,
                                  'v%d:%s' % (var.d, var.n), None, ('owner',), ())
     # filter-branch path-level copies: same field set as copy_from (minus elements/num_elements built incrementally)
@@ -164,7 +164,7 @@ def check_cell_collectors(ctx, db):
         tails_rep.append(('Cell::get_%s[apply_repetitions]' % e, rep[0].loc(), canon_member(f, rep[0])))
         tails_depth.append(('Cell::get_%s[depth]' % e, dep[0].loc(), canon_member(f, dep[0])))
         # order: own elements, then repetitions over [start, finish), then recursion
-        ctx.check(rep[0].id < dep[0].id, 'R-SHAPE', 'Cell::get_%s/order' % e, f.loc(), 'repetitions are applied to the cell\'s own fresh elements before references are descended')
+        ctx.check(rep[0].pos < dep[0].pos, 'R-SHAPE', 'Cell::get_%s/order' % e, f.loc(), 'repetitions are applied to the cell\'s own fresh elements before references are descended')
         start = next((v for v in f.body.c[0].c if v is not None and v.k == 'VarDecl'), None) if f.body.c and f.body.c[0].k == 'DeclStmt' else None
         ok = start is not None and start.child('init') is not None and start.child('init').text() == 'result.count'
         ctx.check(ok, 'R-SHAPE', 'Cell::get_%s/start' % e, f.loc(), '`start` is the output count on entry (only freshly appended elements get their repetition applied)')
